@@ -194,6 +194,14 @@ impl Scenario for Twin {
                     self.setup.push(Op::new(Kind::Other, format!("CREATE INDEX ixty ON ty ({})", col)).table("ty"));
                 }
             }
+            if self.mode == Mode::Restart && self.sw.max_rows_stmt == 3 && self.sw.domain % 8 == 0 {
+                // large, highly compressible image (blank-padded CHAR columns, a few thousand similar rows):
+                // more than a megabyte that the compressed format shrinks by far more than an order of magnitude
+                self.setup.push(Op::new(Kind::Other, "CREATE TABLE tz (id INTEGER, p CHAR(200), q CHAR(120))".to_string()).table("tz"));
+                self.setup.push(Op::new(Kind::Other, format!("<padded rows {}>", 5000 + rng.usize(3000))).table("tz"));
+                self.setup.push(Op::new(Kind::Restart(RestartFmt::Compressed), String::new()));
+                self.setup.push(Op::new(Kind::Restart(*rng.pick(&[RestartFmt::Binary, RestartFmt::Json, RestartFmt::Compressed])), String::new()));
+            }
             if self.mode == Mode::Indexes && self.sw.max_rows_stmt == 5 {
                 // prefix-collision flavour (one run in 6): a composite index whose string key part is a
                 // prefix, rows whose strings agree on that prefix, equal leading values, no NULLs
@@ -218,6 +226,41 @@ impl Scenario for Twin {
                 self.setup.push(Op::create_table(def));
                 self.setup.push(Op::insert("tp", &[], rows));
                 self.setup.push(Op::create_index(IndexDef { name: "ixp".into(), table: "tp".into(), unique: false, cols }));
+            }
+            if self.mode == Mode::Indexes && self.sw.max_rows_stmt == 4 && self.sw.domain % 2 == 0 {
+                // statistics flavour (one run in ~12): a table large enough for the cost-based index selection
+                // (taken only for analysed tables) to prefer the index on the filtered column while another
+                // index could deliver the ORDER BY (1200 rows, two rows per value of c1: the estimated selectivity must be
+                // below about 0.25 % for that); c2 is unique, so ORDER BY c2 is a total order
+                let def = TableDef {
+                    name: "ts".into(),
+                    cols: vec![
+                        ColDef { name: "c0".into(), ty: Ty::Int, not_null: true },
+                        ColDef { name: "c1".into(), ty: Ty::Int, not_null: false },
+                        ColDef { name: "c2".into(), ty: Ty::Int, not_null: false },
+                    ],
+                    ..Default::default()
+                };
+                self.setup.push(Op::create_table(def));
+                for chunk in 0..4i64 {
+                    let rows: Vec<Vec<Lit>> = (chunk * 300..chunk * 300 + 300).map(|i| vec![Lit::Int(i), Lit::Int(i % 600), Lit::Int((i * 856) % 1201)]).collect();
+                    self.setup.push(Op::insert("ts", &[], rows));
+                }
+                self.setup.push(Op::create_index(IndexDef { name: "ixs1".into(), table: "ts".into(), unique: false, cols: vec![("c1".to_string(), None, false)] }));
+                self.setup.push(Op::create_index(IndexDef { name: "ixs2".into(), table: "ts".into(), unique: false, cols: vec![("c2".to_string(), None, rng.chance(1, 3))] }));
+                self.setup.push(Op::new(Kind::Analyze, "ANALYZE ts".into()).table("ts"));
+                for _ in 0..6 {
+                    let k = rng.range(0, 600);
+                    let q = match rng.below(4) {
+                        0 => format!("SELECT c0, c1, c2 FROM ts WHERE c1 = {} ORDER BY c2", k),
+                        1 => format!("SELECT c0, c2 FROM ts WHERE c1 = {} ORDER BY c2 DESC", k),
+                        2 => format!("SELECT c2 FROM ts WHERE c1 BETWEEN {} AND {} ORDER BY c2", k, k + 1),
+                        _ => format!("SELECT c0, c1 FROM ts WHERE c2 = {} ORDER BY c1, c0", (k * 856) % 1201),
+                    };
+                    let mut o = Op::new(Kind::Probe, q).fault("total");
+                    o.name = Some("analysed_two_indexes".into());
+                    self.setup.push(o);
+                }
             }
             if self.mode == Mode::Backend && self.sw.big_rows > 0 {
                 // deep-tree flavour: string keys give the disk-backed B+ tree its minimum degree, so a few
@@ -445,6 +488,18 @@ impl Scenario for Twin {
                 }
                 cx.state_changes += 1;
                 cx.reach("typed_rows");
+                Step::Continue
+            }
+            Kind::Other if op.sql.starts_with("<padded rows ") => {
+                let n: i64 = op.sql.trim_start_matches("<padded rows ").trim_end_matches('>').parse().unwrap_or(0);
+                for s in self.suts.iter_mut() {
+                    for i in 0..n {
+                        let row = vec![vibesql_types::SqlValue::Integer(i), vibesql_types::SqlValue::Character(format!("{:<200}", format!("name {}", i % 7))), vibesql_types::SqlValue::Character(format!("{:<120}", "x"))];
+                        let _ = s.db.insert_row("TZ", vibesql_storage::Row::new(row));
+                    }
+                }
+                cx.state_changes += 1;
+                cx.reach("padded_rows");
                 Step::Continue
             }
             Kind::CreateIndex | Kind::DropIndex if self.mode == Mode::Indexes => {
